@@ -187,6 +187,17 @@ def check_nlp(spec, parts=("dynamics", "placement", "frame", "objective"), inst=
         nlp.prove_equal("%s|sampling_method:SamplingMethod.add_objective:ensures:objective-is-sum-of-terms" % inst, opti._f, orc.J)
         if opti._n_minimize != 1:
             c.fail("%s|direct_method:OptiWrapper.transcribe_placeholders:ensures:minimize-once" % inst, "Opti.minimize called %d times" % opti._n_minimize)
+    if "init" in parts:
+        from .oracle import expected_initial
+        start = opti.initial() + opti.value_parameters()
+        for tag, handle, exp in expected_initial(spec, meth, spec.initial_realised):
+            name = "%s|%s.set_initial:ensures:start[%s]" % (inst, MOD[spec.method] if spec.method == "DC" else "sampling_method:SamplingMethod", "/".join(str(t) for t in tag))
+            try:
+                got = opti.value(handle, start)
+            except RuntimeError as e:
+                c.fail(name, "starting value cannot be read back: %s" % e)
+                continue
+            nlp.prove_equal(name, got, ca.MX(exp))
     if "ss-states" in parts and spec.method == "SS":
         for k in range(spec.N + 1):
             nlp.prove_equal("%s|single_shooting:SingleShooting.add_constraints:ensures:state-is-propagated[%d]" % (inst, k), meth.X[k], orc.X[k])
